@@ -20,10 +20,14 @@
 (* the payload hash, "C" by the custodian, "N" by the pledging node's      *)
 (* signer key, "WK" by an unrelated key, "WM" by the right key over another*)
 (* message, "TR"/"TS" a good signature with a damaged R / S half, "GB"     *)
-(* random bytes, "TO" a signature whose R carries a small-order component. *)
+(* random bytes, "TO" a signature whose R carries a small-order component, *)
+(* "K1"/"K2" the two halves of a compensated pair (two good signatures     *)
+(* whose S halves are shifted by +d and -d: each is invalid, their sum is  *)
+(* unchanged).                                                             *)
 (*                                                                         *)
 (* Amounts are integer combinations  g*G + h*H + c*CAP + p*P + n  of       *)
-(* symbolic units with G >> H >> CAP >> P >> 1 (giant: transaction only,   *)
+(* symbolic units with G >> H >> V >> W >> CAP >> P >> 1 (V = 2^127 and      *)
+(* W = 2^63 units: the machine-word boundaries; giant: transaction only,   *)
 (* up to the encoding limit; huge: fits the default capacity; CAP: the     *)
 (* capacity of the Bitcoin asset; P: node pledge amount; 1 = 1e-8), so sum *)
 (* and comparison are exact and lexicographic (coefficients stay small).   *)
@@ -39,13 +43,18 @@ EXTENDS Integers, Sequences, FiniteSets
 
 --------------------------------------------------------------------------
 (* amounts *)
-Amt(g, h, c, p, n) == [g |-> g, h |-> h, c |-> c, p |-> p, n |-> n]
+\* v, w: multiples of 2^127 and 2^63 units (the machine-word boundaries: 2*W = 2^64, 2*V = 2^128)
+Amt(g, h, c, p, n) == [g |-> g, h |-> h, v |-> 0, w |-> 0, c |-> c, p |-> p, n |-> n]
+AmtW(v, w, n) == [g |-> 0, h |-> 0, v |-> v, w |-> w, c |-> 0, p |-> 0, n |-> n]
 ZeroAmt == Amt(0, 0, 0, 0, 0)
 U(n) == Amt(0, 0, 0, 0, n)
-AmtAdd(a, b) == Amt(a.g + b.g, a.h + b.h, a.c + b.c, a.p + b.p, a.n + b.n)
+AmtAdd(a, b) == [g |-> a.g + b.g, h |-> a.h + b.h, v |-> a.v + b.v, w |-> a.w + b.w,
+                 c |-> a.c + b.c, p |-> a.p + b.p, n |-> a.n + b.n]
 AmtCmp(a, b) ==
     IF a.g # b.g THEN (IF a.g < b.g THEN -1 ELSE 1)
     ELSE IF a.h # b.h THEN (IF a.h < b.h THEN -1 ELSE 1)
+    ELSE IF a.v # b.v THEN (IF a.v < b.v THEN -1 ELSE 1)
+    ELSE IF a.w # b.w THEN (IF a.w < b.w THEN -1 ELSE 1)
     ELSE IF a.c # b.c THEN (IF a.c < b.c THEN -1 ELSE 1)
     ELSE IF a.p # b.p THEN (IF a.p < b.p THEN -1 ELSE 1)
     ELSE IF a.n # b.n THEN (IF a.n < b.n THEN -1 ELSE 1)
@@ -86,7 +95,7 @@ ExtraLen(e) ==
     CASE e = "e0" -> 0 [] e = "e1" -> 1 [] e = "e32" -> 32 [] e = "e63" -> 63
       [] e \in {"e64", "pledgeOK", "pledgeBadKey", "pledgeSigner", "pledgePayee",
                 "acceptEq", "removeEq1", "removeEq2"} -> 64
-      [] e \in {"e96", "claimOK", "claimBad"} -> 96
+      [] e \in {"e96", "claimOK", "claimBad", "cancelOK", "cancelFF", "cancelZero"} -> 96
       [] e = "e256" -> 256 [] e = "e257" -> 257 [] e = "e1024" -> 1024 [] e = "e1025" -> 1025
       [] e = "e2048" -> 2048 [] e = "e2049" -> 2049
       [] e \in {"custOK", "custBadSig", "custUnsorted", "custOther"} -> 2599
@@ -107,7 +116,7 @@ ExtraCapacity == 4194304
 \* Quotient amount / 0.0001 times 1024, capped; an amount whose quotient does not fit 64 bits
 \* is far above the cap (the specification has no other outcome for it, see C05).
 StepLimit(a) ==
-    IF a.g > 0 \/ a.h > 0 \/ a.c > 0 \/ a.p > 0 THEN ExtraCapacity
+    IF a.g > 0 \/ a.h > 0 \/ a.v > 0 \/ a.w > 0 \/ a.c > 0 \/ a.p > 0 THEN ExtraCapacity
     ELSE LET lim == (a.n \div StoragePriceStep) * 1024 IN
          IF lim > ExtraCapacity THEN ExtraCapacity ELSE lim
 
@@ -240,9 +249,9 @@ MintRule(c) ==
 
 \* total + amount >= capacity of the asset
 OverCapacity(c, L, a) ==
-    CASE c.asset = "BTC" -> a.g > 0 \/ a.h > 0 \/ a.p > 0      \* (P is above the Bitcoin capacity)
+    CASE c.asset = "BTC" -> a.g > 0 \/ a.h > 0 \/ a.v > 0 \/ a.w > 0 \/ a.p > 0      \* (P is above the Bitcoin capacity)
                             \/ AmtCmp(AmtAdd(a, L.bal), Amt(0, 0, 1, 0, 0)) >= 0
-      [] c.asset = "XIN" -> a.g > 0 \/ a.h > 0          \* (a few CAP or P units fit the XIN capacity)
+      [] c.asset = "XIN" -> a.g > 0 \/ a.h > 0 \/ a.v > 0 \/ a.w > 0     \* (a few CAP or P units fit the XIN capacity)
       [] OTHER -> a.g > 0
 
 DepositRule(c, L) ==
